@@ -1,6 +1,7 @@
 package main
 
 import (
+	"runtime/debug"
 	"os"
 	"strconv"
 	"strings"
@@ -302,6 +303,9 @@ func VerifC12IOPaths() {
 	defer verifReset(in, out)
 	text := []string{"C[1] D_m7/F[2,1/2]{txt=hi} R[1]\n", "4[1]  ; comment\n2b_m7[3/4]", "C[", "", "\ufeffC[1] G_7[2]\n"}[vf.NondetIntRange("text", 0, 4)]
 	os.WriteFile(in, []byte(text), 0o644)
+	// the command: text parse, or one of the two conversions (a text in the other notation is
+	// refused — on every path alike)
+	tc := []*cobra.Command{textCmdParse, textCmdConvSyllable, textCmdConvDegree}[vf.NondetIntRange("command", 0, 2)]
 	run := func(args []string, useStdin bool, toFile bool) (string, error) {
 		flags := []string{"--output", ""}
 		if toFile {
@@ -312,7 +316,7 @@ func VerifC12IOPaths() {
 			}
 			flags = []string{"--output", out}
 		}
-		if err := textCmdParse.ParseFlags(flags); err != nil {
+		if err := tc.ParseFlags(flags); err != nil {
 			return "", err
 		}
 		if useStdin {
@@ -324,7 +328,7 @@ func VerifC12IOPaths() {
 			}
 			defer restore()
 		}
-		printed, err := verifCapture("io-stdout.txt", func() error { return textCmdParse.RunE(textCmdParse, args) })
+		printed, err := verifCapture("io-stdout.txt", func() error { return tc.RunE(tc, args) })
 		if toFile {
 			b, _ := os.ReadFile(out)
 			if printed != "" {
@@ -346,6 +350,15 @@ func VerifC12IOPaths() {
 	vf.Assert("stdin-same-bytes-as-file", viaStdin == ref)
 	vf.Assert("dash-same-bytes-as-file", viaDash == ref)
 	vf.Assert("output-file-same-bytes-as-stdout", toFile == ref)
+	// converting a file in place: -o names the very file the text is read from
+	vf.Assert("flags-parse", tc.ParseFlags([]string{"--output", in}) == nil)
+	printed, e4 := verifCapture("io-stdout.txt", func() error { return tc.RunE(tc, []string{in}) })
+	tc.ParseFlags([]string{"--output", ""})
+	after, _ := os.ReadFile(in)
+	vf.Assert("in-place-same-outcome", (e4 == nil) == (rerr == nil) && printed == "")
+	if rerr == nil {
+		vf.Assert("in-place-same-bytes-as-stdout", string(after) == ref)
+	} // (what a failing command leaves in the -o file is not part of the statement)
 	if rerr != nil {
 		vf.Assert("nothing-printed-on-failure", ref == "")
 		vf.Reach("failed")
@@ -411,12 +424,23 @@ func VerifC08WriteCmd() {
 	}
 	os.WriteFile(in, []byte(doc), 0o644)
 	n := vf.NondetIntRange("tracks", 1, vf.Param("C08.cmdTracks", 4))
+	// the file goes to -o or to standard output; any program number the flag accepts
+	toStdout := vf.NondetIntRange("to-stdout", 0, 1) == 1
+	program := []string{"0", "56", "127", "128", "200", "255"}[vf.NondetIntRange("program", 0, 5)]
 	write := func(tracks int) *spec.SMFFile {
 		os.Remove(out)
-		vf.Assert("flags-parse", writeCmd.ParseFlags([]string{"--output", out, "--track", []string{"0", "1", "2", "3", "4", "5", "6", "7", "8"}[tracks]}) == nil)
-		err := writeCmd.RunE(writeCmd, []string{in})
+		o := out
+		if toStdout {
+			o = ""
+		}
+		vf.Assert("flags-parse", writeCmd.ParseFlags([]string{"--output", o, "--program", program, "--track", []string{"0", "1", "2", "3", "4", "5", "6", "7", "8"}[tracks]}) == nil)
+		printed, err := verifCapture("write-stdout.bin", func() error { return writeCmd.RunE(writeCmd, []string{in}) })
+		writeCmd.ParseFlags([]string{"--output", "", "--program", "0"})
 		vf.Assert("write-succeeds", err == nil)
 		b, rerr := os.ReadFile(out)
+		if toStdout {
+			b, rerr = []byte(printed), nil
+		}
 		vf.Assert("file-written", rerr == nil && len(b) > 0)
 		f, why := spec.ParseSMF(b)
 		vf.Assert("well-formed-smf", f != nil && why == "")
@@ -1085,6 +1109,77 @@ func VerifC14ConvCmd() {
 		same = same && got[k]
 	}
 	vf.Assert("result-lists-exactly-the-spellings-of-the-target", same)
+	vf.Reach("end")
+}
+
+// VerifC09KeyConvCommand: `info key conv -c TEXT` for any text of up to three characters over
+// the four conversion letters, an unknown letter, multi-byte characters of two, three and four
+// bytes, and a byte that is no UTF-8 at all: never a panic; a text made of conversion letters
+// only succeeds, anything else is refused with nothing printed.
+func VerifC09KeyConvCommand() {
+	alphabet := []string{"p", "s", "d", "r", "x", "é", "♯", "\U0001F3B5", "\xff"}
+	n := vf.NondetIntRange("length", 1, vf.Param("C09.convLetters", 3))
+	text, known := "", true
+	for i := 0; i < n; i++ {
+		c := vf.NondetIntRange("char", 0, len(alphabet)-1)
+		text += alphabet[c]
+		known = known && c < 4
+	}
+	key := []string{"C", "F#m", "Gb"}[vf.NondetIntRange("key", 0, 2)]
+	vf.Assert("flags-parse", infoKeyCmdConv.ParseFlags([]string{"--output", "", "--key", key, "--command", text}) == nil)
+	out, err := verifCapture("convcmd-out.txt", func() error { return infoKeyCmdConv.RunE(infoKeyCmdConv, nil) })
+	if known {
+		vf.Assert("known-letters-succeed", err == nil && out != "")
+	} else {
+		vf.Assert("unknown-letter-refused-nothing-printed", err != nil && out == "")
+	}
+	vf.Reach("end")
+}
+
+// VerifC04HugeText: a sentence of any length is read to its end. Two chords with C04.hugeKiB
+// KiB of blank lines, blanks and comment lines between them (more than any buffer or size
+// limit of a plausible reader: 64 KiB, 1 MiB) parse to two chords; the same text with a stray
+// closing bracket at the very end is refused; so is one cut inside the last chord.
+func VerifC04HugeText() {
+	kib := vf.Param("C04.hugeKiB", 1100)
+	vf.Unwind(2000 * 1024 * kib / 1000 * 1000)
+	filler := []string{"\n", " ", "; a comment line\n"}[vf.NondetIntRange("filler", 0, 2)]
+	tail := []string{"D_m/F[1/2]{k=v}", "D_m/F[1/2] ]", "D_m/F[1/"}[vf.NondetIntRange("tail", 0, 2)]
+	text := "C[1]\n" + strings.Repeat(filler, kib*1024/len(filler)) + tail
+	list, err := parseText(strings.NewReader(text))
+	if tail == "D_m/F[1/2]{k=v}" {
+		vf.Assert("whole-long-sentence-parsed", err == nil && list != nil && len(list.List) == 2)
+	} else {
+		vf.Assert("malformed-end-of-a-long-text-refused", err != nil)
+	}
+	vf.Reach("end")
+}
+
+// VerifC09CommentRun: the stack a parse needs does not grow with the text. A run of comment
+// lines (C09.commentLines of them) in front of a chord is parsed within a call depth of 100
+// frames — a depth that grows with the number of lines is a fatal stack overflow once the
+// text is long enough (natively the replay gives the goroutine a 512 KiB stack and 20000
+// lines: overflow if and only if every line costs a frame).
+func VerifC09CommentRun() {
+	lines := vf.Param("C09.commentLines", 300)
+	if vf.Native() {
+		debug.SetMaxStack(512 << 10)
+		lines = 20000
+	}
+	where := vf.NondetIntRange("comments-are", 0, 2)
+	text := strings.Repeat("; c\n", lines) + "C[1]"
+	switch where {
+	case 1: // between `_` and the symbol
+		text = "C_" + strings.Repeat("; c\n", lines) + "m7[1]"
+	case 2: // after the last chord
+		text = "C[1]\n" + strings.Repeat(";\n", lines)
+	}
+	vf.Unwind(100 * lines)
+	vf.MustTerminate()
+	vf.MaxDepth(100)
+	list, err := parseText(strings.NewReader(text))
+	vf.MaxDepth(10000)
+	vf.Assert("comment-run-parses", err == nil && list != nil && len(list.List) == 1)
 	vf.Reach("end")
 }
 
